@@ -13,7 +13,7 @@ INVARIANT InvModelOK
 INVARIANT Emit
 CHECK_DEADLOCK FALSE
 """
-BOUNDS = {'quick': [dict(N=4, MaxCons=5, MaxChain=2)],
+BOUNDS = {'quick': [dict(N=4, MaxCons=5, MaxChain=2), dict(N=5, MaxCons=3, MaxChain=1)],   # (root + 2 constituents over 5 tokens: a node with two gaps inside a node with one)
           'thorough': [dict(N=5, MaxCons=6, MaxChain=2), dict(N=6, MaxCons=5, MaxChain=1)]}
 
 
